@@ -397,6 +397,14 @@ def run(rep, tier):
                 agg[k] = agg.get(k, 0) + v
         for sig, what, info in r["viol"]:
             rep.violation(sig, what, info)
+    # ---- the shipped self-check rails with their real actions: long messages / prompt length limit (vf/props/c02_selfcheck.py)
+    from vf.props import c02_selfcheck
+    for r in par.pmap(c02_selfcheck.explore, c02_selfcheck.tasks(tier)):
+        for k, v in r.items():
+            if isinstance(v, int):
+                agg[k] = agg.get(k, 0) + v
+        for sig, what, info in r["viol"]:
+            rep.violation(sig, what, info)
     # ---- event level: the shipped guardrails library under the event API (vf/props/c02_events.py, E1 explorer)
     from vf.props import c02_events
     ev = {"states": 0, "transitions": 0, "traces_validated_against_impl": 0, "checked_utterances": 0, "output_rail_approvals": 0,
